@@ -57,7 +57,7 @@ Definition merge_compat (root : snapshot) (m : merge_ev) (olddocs : list (Z * li
         forallb (fun n => (0 <=? n) && (n <? Z.of_nat (length docs)))
                 (match snd p with Some d0 => d0 | None => [] end) &&
         match find_seg root (fst p) with
-        | None => true
+        | None => match snd p with Some _ => true | None => false end   (* nil entry of a vanished segment: nil dereference in Go *)
         | Some s =>
             docs_eqb (ss_docs s) docs &&
             match snd p with
